@@ -352,8 +352,9 @@ def check_receive_kind(ck, P, rid):
                 hit = False
                 for core, t in conds:
                     core = X.strip(core)
-                    if core.k == "BinaryOperator" and core.op in ("<=", "==") and X.const_int(core.children[1]) is not None and X.const_int(core.children[1]) > 8:
-                        if "size" in X.show(core.children[0]) and t == anti:
+                    if core.k == "BinaryOperator" and core.op in ("<=", "==", "!=", ">") and X.const_int(core.children[1]) is not None and X.const_int(core.children[1]) > 8:
+                        anti_side = t if core.op in ("<=", "==") else (not t)      # `size != K` / `size > K` true means: not an anti-message
+                        if "size" in X.show(core.children[0]) and anti_side == anti:
                             hit = True
                 if not hit:
                     ok = False
